@@ -24,7 +24,7 @@ JOBS = {'quick': 4, 'thorough': 16}
 REQUIRED_MONITORS = ('interleaved_access', 'instances_vs_truth', 'access_consistency', 'negative_topology')
 REQUIRED_CLASSES = ('enumerated', 'random-long', 'species:multi-residue', 'species:repeated-residue',
                     'species:same-name-other-size', 'solvent-interleaved', 'order:permuted', 'api:files', 'api:tops',
-                    'negative:absent-species', 'negative:pattern-at-end', 'negative:refused-then-system-used-again', 'api:tops+refused')
+                    'negative:absent-species', 'negative:pattern-at-end', 'negative:refused-then-system-used-again', 'api:tops+refused', 'adjacent-instances-of-a-merging-species')
 RULE = ('enumerated part: all sequences of length <= Lmax over {S1,S2,S3,S4,W} x all permutations of the loading order of '
         'the species present (Lmax = 6 thorough, 4 quick with <= 6 orders); random part: systems of 50..2000 molecules in '
         'block / alternating / random order. Non-trivial: at least 2 loaded species present or a multi-residue species '
@@ -48,7 +48,17 @@ def species_set():
         'S3': sysgen.make_species(rng, 'SPC', [2, 2, 1], ['R3A', 'R3A', 'R3B'], prefix='C'),
         'S4': sysgen.make_species(rng, 'SPD', [4], ['R1A'], prefix='D'),
         'W': sysgen.make_species(rng, 'W', [1], ['W'], prefix='W'),
+        # a second family, with the residue layouts that merge across molecule boundaries in the run-length table:
+        # first and last residue alike with another in between; one residue kind repeated; identical single-atom residues
+        'S5': sysgen.make_species(rng, 'SPE', [2, 3, 2], ['R5A', 'R5B', 'R5A'], prefix='E'),
+        'S6': sysgen.make_species(rng, 'SPF', [1, 1, 1], ['R6A', 'R6A', 'R6A'], prefix='F'),
+        'S7': sysgen.make_species(rng, 'SPG', [2, 2], ['R7A', 'R7A'], prefix='G'),
     }
+    for key, copies in (('S5', [(0, 5), (1, 6)]), ('S6', [(0, 1), (0, 2)]), ('S7', [(0, 2), (1, 3)])):
+        # residues of the same kind carry the same atom names
+        a = sp[key]['atoms']
+        for src, dst in copies:
+            a[dst] = (a[src][0], a[dst][1], a[dst][2])
     # the repeated residue of S3 has the same atom names in both copies
     a = sp['S3']['atoms']
     sp['S3']['atoms'] = [a[0], a[1], (a[0][0], a[2][1], a[2][2]), (a[1][0], a[3][1], a[3][2]), a[4]]
@@ -100,6 +110,10 @@ def cases(ctx):
         total = 5 ** L
         for b in range((total + BLOCK - 1) // BLOCK):
             yield {'kind': 'enum', 'L': L, 'block': b}
+    for L in range(1, (3 if ctx.tier == 'quick' else 5) + 1):
+        total = 5 ** L
+        for lo in range(0, total, 125):
+            yield {'kind': 'enum2', 'L': L, 'lo': lo, 'hi': min(total, lo + 125)}
     for i in range(16 if ctx.tier == 'quick' else 600):
         yield {'kind': 'rand', 'i': i}
     for i in range(6 if ctx.tier == 'quick' else 100):
@@ -252,13 +266,13 @@ def check_system(ctx, s, instances, species, w, deep):
     return True
 
 
-def run_sequence(ctx, seq, orders, tag, api_cycle, deep_every=1, mode='unique-grid'):
+def run_sequence(ctx, seq, orders, tag, api_cycle, deep_every=1, mode='unique-grid', loadable=None):
     species = _tmp['species']
     rng = ctx.rng('seq', tag)
     path = os.path.join(_tmp['dir'], f'sys{os.getpid()}.gro')
     records, instances = sysgen.build_system(rng, species, seq, mode=mode, resid_start=int(rng.integers(1, 90)))
     gen.write_gro(path, 'generated system', records, (10.0, 10.0, 10.0))
-    present = [k for k in KEYS[:4] if k in seq]
+    present = [k for k in (loadable or KEYS[:4]) if k in seq]
     for n_order, order in enumerate(orders(present)):
         for ins in instances:
             ins['loaded'] = ins['species'] in order
@@ -319,26 +333,56 @@ def run_enum(ctx, case):
     ctx.extra['enumerated_blocks'][f'L{L}'] += 1
 
 
+KEYS2 = ['S5', 'S6', 'S7', 'S1', 'W']
+
+
+def run_enum2(ctx, case):
+    """Second family (residue layouts that merge across molecule boundaries): all sequences of length L over
+    {S5, S6, S7, S1, W} x every load order of the species present."""
+    L = case['L']
+    quick = ctx.tier == 'quick'
+    for idx in range(case['lo'], case['hi']):
+        digits, x = [], idx
+        for _ in range(L):
+            digits.append(x % 5)
+            x //= 5
+        seq = [KEYS2[d] for d in digits]
+        if all(k == 'W' for k in seq):
+            continue
+
+        def orders(present):
+            perms = [p for p in itertools.permutations(present)] if present else []
+            if quick and len(perms) > 6:
+                r = np.random.default_rng([ctx.seed, L, idx])
+                perms = [perms[int(i)] for i in r.choice(len(perms), 6, replace=False)]
+            return perms
+        run_sequence(ctx, seq, orders, ('enum2', L, idx), ['tops', 'files', 'tops+refused'], deep_every=2, loadable=KEYS2[:4])
+        ctx.hit('enumerated:merging-layouts')
+        if any(a == b and a in ('S5', 'S6', 'S7') for a, b in zip(seq, seq[1:])):
+            ctx.hit('adjacent-instances-of-a-merging-species')
+
+
 def run_rand(ctx, case):
     rng = ctx.rng('rand', case['i'])
+    keys = KEYS2 if case['i'] % 2 else KEYS
     n = int(rng.integers(50, 2001 if ctx.tier == 'thorough' else 401))
     kind = ['blocks', 'alternating', 'random'][case['i'] % 3]
     if kind == 'blocks':
         seq = []
         while len(seq) < n:
-            seq += [KEYS[int(rng.integers(0, 5))]] * int(rng.integers(1, 60))
+            seq += [keys[int(rng.integers(0, 5))]] * int(rng.integers(1, 60))
         seq = seq[:n]
     elif kind == 'alternating':
-        a, b, c = (KEYS[int(i)] for i in rng.choice(5, 3, replace=False))
+        a, b, c = (keys[int(i)] for i in rng.choice(5, 3, replace=False))
         seq = [(a, b, c)[i % 3] for i in range(n)]
     else:
-        seq = [KEYS[int(i)] for i in rng.integers(0, 5, n)]
+        seq = [keys[int(i)] for i in rng.integers(0, 5, n)]
 
     def orders(present):
         perms = list(itertools.permutations(present))
         r = np.random.default_rng([ctx.seed, case['i']])
         return [perms[int(i)] for i in r.choice(len(perms), min(len(perms), 3), replace=False)]
-    run_sequence(ctx, seq, orders, ('rand', case['i']), ['files', 'tops', 'tops+refused'], mode='unique-grid')
+    run_sequence(ctx, seq, orders, ('rand', case['i']), ['files', 'tops', 'tops+refused'], mode='unique-grid', loadable=keys[:4])
     ctx.hit('random-long')
     if case['i'] == 0:
         ctx.sample({'kind': 'random system', 'molecules': n, 'order_kind': kind, 'sequence_head': seq[:20]})
@@ -382,7 +426,7 @@ def run_neg(ctx, case):
 
 
 def run_case(ctx, case):
-    {'enum': run_enum, 'rand': run_rand, 'neg': run_neg}[case['kind']](ctx, case)
+    {'enum': run_enum, 'enum2': run_enum2, 'rand': run_rand, 'neg': run_neg}[case['kind']](ctx, case)
 
 
 def finalize(ctx):
